@@ -56,6 +56,20 @@ pub fn stress_family() -> Vec<(&'static str, Vec<(String, String)>)> {
                 f("c.s", "    li t3, 4\n"),
             ],
         ),
+        (
+            "garbage-reads-at-equal-depth-in-two-files",
+            vec![
+                f("base.s", "main:\n    beqz a0, z\n    .include \"cold.s\"\nz:\n    add a0, t1, t0\ne:\n    li a7, 93\n    ecall\n"),
+                f("cold.s", "    add a0, t0, t1\n    j e\n"),
+            ],
+        ),
+        (
+            "saved-stores-in-two-files",
+            vec![
+                f("base.s", "main:\n    jal f\n    li a7, 10\n    ecall\nf:\n    beqz a0, z\n    .include \"cold.s\"\nz:\n    li s0, 2\ne:\n    ret\n"),
+                f("cold.s", "    li s0, 1\n    j e\n"),
+            ],
+        ),
         ("duplicate-label-twice", vec![f("base.s", "main:\nA:\n    li a7, 10\nA:\n    ecall\nA:\n")]),
         ("handler-and-call", vec![f("base.s", "main:\n    la t0, h\n    csrrw zero, 5, t0\n    jal h\n    li a7, 10\n    ecall\nh:\nh2:\n    li s0, 1\n    ret\n")]),
         ("two-functions-one-exit-two-labels", vec![f("base.s", "main:\n    jal f\n    jal g\n    li a7, 10\n    ecall\nf:\n    li s0, 1\ng:\ng2:\n    li s1, 1\n    ret\n")]),
@@ -328,7 +342,7 @@ impl Property for C10 {
     }
     fn info(&self, tier: Tier) -> Info {
         Info {
-            rule: "20 order-stress programs (2-3 undefined labels, reads of never-assigned registers at equal distance, multi-label entries, 2-3 returns, entry reached from the program start and by a jump, data labels before a function label, shared tails, 2-3 files with diagnostics in each) plus the program pool (every 389th / 29th member of the quick S family, clean and injected): every hash-order schedule within the deviation bound (whole tree when small) x every relative order of the file UUIDs must give the same sequence of (code, file, range, title, level, description, related); each explored schedule is replayed twice on freshly parsed input (new random node UUIDs and hash seeds); no two items of a result are equal; RVParser::run gives the same items; the rva binary's --json / --compact / pretty (+- --all-files) output is byte-identical under the explored schedules, all file orders and 8 (stress family) / 3 (pool) runs per mode with true random seeds. Non-trivial = programs with >= 2 schedules or >= 2 files".into(),
+            rule: "22 order-stress programs (2-3 undefined labels, reads of never-assigned registers at equal distance, multi-label entries, 2-3 returns, entry reached from the program start and by a jump, data labels before a function label, shared tails, 2-3 files with diagnostics in each) plus the program pool (every 389th / 29th member of the quick S family, clean and injected): every hash-order schedule within the deviation bound (whole tree when small) x every relative order of the file UUIDs must give the same sequence of (code, file, range, title, level, description, related); each explored schedule is replayed twice on freshly parsed input (new random node UUIDs and hash seeds); no two items of a result are equal; RVParser::run gives the same items; the rva binary's --json / --compact / pretty (+- --all-files) output is byte-identical under the explored schedules, all file orders and 8 (stress family) / 3 (pool) runs per mode with true random seeds. Non-trivial = programs with >= 2 schedules or >= 2 files".into(),
             bounds: json!({"stress_programs": self.stress.len(), "pool_programs": self.pool(tier).count(), "deviation_bound": tier.pick(1, 2), "full_tree_below": tier.pick(96, 2048), "fresh_replays_per_schedule": 2, "cli_random_seed_runs": "8 per mode for the stress family, 3 for the pool"}),
             assumptions: vec![
                 "hash order is explored exhaustively at the hooked sites (H2-H5) and validated at all other sites only by the fresh-seed replays (sampling, secondary)".into(),
